@@ -18,11 +18,25 @@ def run(ctx):
         return {"hs_chunk": connsim.c03_conn_family(rng)}
 
     conn_common.dedicated(ctx, "c03conn", [], build)
+    # client level, Noise: the name rule over several sessions of one client (the expectation set / cleared in between;
+    # a name learned from one session must not become an expectation for the next)
+    from vf import clientsim
+    from vf.props import c19
+
+    res = c19.run_family(ctx, "client_names", clientsim.names_family([dict(noise=True, login=False)]))
+    ctx.evaluations += res["n"]
+    ctx.distinct |= {("client_names", i) for i in range(res["n"])}
+    for f in res["findings"]:
+        ctx.violation(f"Client/client_names/{f['cause']}/{'+'.join(f['fields'])}", {"kind": "client-trace", "family": "client_names", **f})
     ctx.rule += "; connection level: frames in the same chunk as / right behind the handshake reply, observed on the real APIConnection and validated by TLC (TraceConnection.tla)"
 
 
 def replay(ctx, case):
-    if case.get("kind") == "conn-trace":
+    if case.get("kind") == "client-trace":
+        from vf.props import c19
+
+        c19.replay(ctx, case)
+    elif case.get("kind") == "conn-trace":
         conn_common.replay_case(ctx, case)
     else:
         noise_common.replay_case(ctx, case)
